@@ -19,6 +19,14 @@
 (*                                the document dumped and parsed again /   *)
 (*                                another field of a paragraph edited:     *)
 (*                                nothing a lookup may depend on changes   *)
+(*   [op |-> "fault"]             a call whose caller-supplied argument    *)
+(*                                failed part-way (a faulting iterator of  *)
+(*                                lines parsed, dump(fd) with a failing    *)
+(*                                fd, files = / globs_to_re(an iterable    *)
+(*                                that raises)): NOTHING changes -- not    *)
+(*                                the document, not the translation held,  *)
+(*                                not even the answers already given       *)
+(*                                (GlobFind.tla, Fault)                    *)
 (*   [op |-> "matches", k, n, res]  res in "match"/"nomatch"/"FormatError" *)
 (*   [op |-> "find", n, res]      res = IDENTITY of the returned paragraph *)
 (*                                (its number in the order the Files       *)
@@ -62,6 +70,8 @@ TStep == /\ l <= Len(Tr.events)
                  /\ doc' = Append(doc, e.ps) /\ n' = n /\ seen' = {} /\ UNCHANGED tl
               \/ /\ e.op \in {"addlicense", "reparse", "touch"}
                  /\ seen' = {} /\ UNCHANGED <<doc, n, tl>>
+              \/ /\ e.op = "fault"
+                 /\ UNCHANGED <<doc, n, tl, seen>>
               \/ /\ e.op = "matches" /\ e.k \in 1..Len(doc)
                  /\ doc' = doc /\ n' = e.n /\ UNCHANGED <<tl, seen>>
                  /\ e.res = RefMatches(doc[e.k], e.n)
